@@ -19,7 +19,7 @@ from ..dataflow import dataflow_of, walk_scope
 from ..model import AnalysisError, Func, dotted, norm_stmt, parent
 from ..paths import PathFinder, cond_facts, describe_path
 from ..terms import Term, contains, show, subterms
-from ..util import calls_in, catching_handler, deep_subterms, nodes_in
+from ..util import calls_in, catching_handler, deep_subterms, nodes_in, walrus_binds_before
 
 P = "C14"
 ABORT = "ropt.exceptions.OptimizationAborted"
@@ -60,6 +60,10 @@ def c14_1(ctx: Ctx) -> RuleResult:
                 reads += 1
                 ub = df.unbound.get(v)
                 if ub is None or ub not in df.reaching(n, v):
+                    continue
+                # bound by an assignment expression evaluated earlier in the same statement / test
+                root_ = n.ast.iter if n.kind == "iter" else (n.ast.context_expr if n.kind == "with" else n.ast)
+                if root_ is not None and walrus_binds_before(root_, use):
                     continue
                 # candidate: flow-insensitively maybe unbound; look for a feasible path
                 if pf is None:
